@@ -66,6 +66,17 @@ fn tolerance_for(family: &str) -> f64 {
     if family == "scale" { 1. } else { 0. }
 }
 
+/// Key of a finding. A tour over an unreachable leg is identified by the problem and the leg (a recorded finding must not
+/// hide another input of the same family).
+pub fn finding_key(f: &oracle::Finding, family: &str, problem: &PProblem) -> String {
+    if f.rule == "C01:unreachable-leg" {
+        let leg = f.what.split("leg ").nth(1).and_then(|r| r.split(' ').next()).unwrap_or("?");
+        format!("{}:{}:{leg}", f.rule, problem.name)
+    } else {
+        format!("{}:{family}", f.rule)
+    }
+}
+
 pub struct Judged {
     pub violations: Vec<Violation>,
     pub outcome: String,
@@ -89,8 +100,9 @@ pub fn judge(family: &str, problem: &PProblem, cfg: &SolveCfg, scope: Scope) -> 
             let violations = findings
                 .into_iter()
                 .filter(|f| oracle::in_scope(f, scope))
-                .filter(|f| seen.insert(f.rule.clone()))
-                .map(|f| Violation::new(format!("{}:{family}", f.rule), f.what, scen.clone()))
+                .map(|f| (finding_key(&f, family, problem), f))
+                .filter(|(key, _)| seen.insert(key.clone()))
+                .map(|(key, f)| Violation::new(key, f.what, scen.clone()))
                 .collect();
             let tours = solved.json.get("tours").and_then(|t| t.as_array()).map_or(0, |t| t.len());
             let unassigned = solved.json.get("unassigned").and_then(|t| t.as_array()).map_or(0, |t| t.len());
